@@ -167,6 +167,122 @@ def _recover_renames_once(prog, table):
     return out
 
 
+def recover_moves(prog, table):
+    """A method of the reference tree that is gone while a function the reference tree does not have (in the same module, at module
+    level or in the same class) is called from the same places and takes the same arguments - possibly after ONE extra leading
+    argument that every caller computes from the receiver (`self.ike_sas`, `cls.type_2_payload`, `self`): the method was moved out of
+    its class.  The reference method is put back as a one-line wrapper around the new function, and the call sites inside the class
+    call the wrapper again; the new function is then inlined into it like any other unknown helper, so the rules find the anchor and
+    its body where they expect them."""
+    known = set(table['functions'])
+    sigs, krefs, kinds = table.get('signatures', {}), table.get('refs', {}), table.get('kinds', {})
+    if not krefs or not kinds:
+        return []
+    refs_ref = krefs_sets(krefs)
+    out = []
+    for mq in sorted(known):
+        if mq in prog.functions or kinds.get(mq) not in ('method', 'classmethod', 'staticmethod'):
+            continue
+        holder, mname = mq.rsplit('.', 1)
+        cls = prog.classes.get(holder)
+        if cls is None or (mname.startswith('_') and mname.endswith('_')):
+            continue
+        if any(isinstance(x, (ast.Attribute,)) and x.attr == mname or isinstance(x, ast.Name) and x.id == mname
+               for m in prog.modules.values() for x in ast.walk(m.tree)):
+            continue
+        sig = sigs.get(mq)
+        if sig is None:
+            continue
+        k_ = sig.index('*')
+        ref_pos = sig[:k_]
+        if sig[k_ + 1:]:
+            continue
+        kind = kinds[mq]
+        call_params = ref_pos[1:] if kind in ('method', 'classmethod') else ref_pos
+        callers_ref = {q for q, r in refs_ref.items() if mname in r and q != mq}
+        cands = []
+        for nq, fi in prog.functions.items():
+            if nq in known or not isinstance(fi.node, ast.FunctionDef) or fi.module is not cls.module:
+                continue
+            if fi.cls is not None and fi.cls is not cls:
+                continue
+            if fi.node.args.vararg or fi.node.args.kwarg or fi.kwonly:
+                continue
+            extra = len(fi.call_params()) - len(call_params)
+            if extra not in (0, 1):
+                continue
+            # call sites of the candidate
+            sites = []
+            for q2, f2 in prog.functions.items():
+                for c in ast.walk(f2.node):
+                    if isinstance(c, ast.Call) and ((isinstance(c.func, ast.Name) and c.func.id == fi.name) or
+                                                    (isinstance(c.func, ast.Attribute) and c.func.attr == fi.name)):
+                        sites.append((q2, f2, c))
+            if not sites or any(c.keywords and extra for _, _, c in sites) or any(len(c.args) + len(c.keywords) != len(fi.call_params()) and not fi.defaults()
+                                                                                   for _, _, c in sites):
+                continue
+            callers_now = {q2 for q2, _, _ in sites}
+            if _jacc(callers_ref, callers_now) < 0.5:
+                continue
+            lead = None
+            if extra == 1:
+                texts = set()
+                for q2, f2, c in sites:
+                    if not c.args:
+                        texts.add(None)
+                        continue
+                    a0 = c.args[0]
+                    root = a0
+                    while isinstance(root, ast.Attribute):
+                        root = root.value
+                    if not (isinstance(root, ast.Name) and f2.cls is cls and root.id == (f2.self_name or '')):
+                        texts.add(None)
+                        continue
+                    texts.add(src(a0).replace(root.id, '@', 1) if src(a0).startswith(root.id) else None)
+                if len(texts) != 1 or None in texts:
+                    continue
+                lead = texts.pop()
+            names_now = {q.rsplit('.', 1)[1] for q in prog.functions} | {q.rsplit('.', 1)[1] for q in known}
+            mentions_now = {x.attr if isinstance(x, ast.Attribute) else x.id for x in ast.walk(fi.node)
+                            if isinstance(x, (ast.Attribute, ast.Name))} & names_now
+            # what the body reads, by attribute name: a weak fingerprint that tells sibling helpers apart
+            attrs_now = {x.attr for x in ast.walk(fi.node) if isinstance(x, ast.Attribute)}
+            attrs_ref = set(table.get('attr_reads', {}).get(mq, ()))
+            score = _jacc(callers_ref, callers_now) + _jacc(set(refs_ref.get(mq, ())) - {mname}, mentions_now - {fi.name}) + \
+                (_jacc(attrs_ref, attrs_now) if attrs_ref else 0)
+            cands.append((score, fi, extra, lead, sites))
+        if not cands:
+            continue
+        cands.sort(key=lambda c: -c[0])
+        if len(cands) > 1 and cands[0][0] - cands[1][0] < 0.3:
+            continue
+        _, fi, extra, lead, sites = cands[0]
+        recv = 'cls' if kind == 'classmethod' else 'self'
+        args = ([lead.replace('@', recv, 1)] if extra else []) + list(call_params)
+        callee = fi.name if fi.cls is None else ('%s.%s' % (recv if kind != 'staticmethod' else cls.name, fi.name))
+        deco = {'classmethod': '    @classmethod\n', 'staticmethod': '    @staticmethod\n', 'method': ''}[kind]
+        text = 'class _X:\n%s    def %s(%s):\n        return %s(%s)\n' % (deco, mname, ', '.join(ref_pos), callee, ', '.join(args))
+        try:
+            wrapper = ast.parse(text).body[0].body[0]
+        except SyntaxError:
+            continue
+        ast.copy_location(wrapper, fi.node)
+        ast.fix_missing_locations(wrapper)
+        cls.node.body.append(wrapper)
+        # call sites inside the class go through the wrapper again
+        for q2, f2, c in sites:
+            if f2.cls is cls and f2.self_name and f2.node is not wrapper:
+                rest = c.args[extra:]
+                if kind == 'staticmethod':
+                    c.func = ast.Attribute(value=ast.Name(id=cls.name, ctx=ast.Load()), attr=mname, ctx=ast.Load())
+                else:
+                    c.func = ast.Attribute(value=ast.Name(id=f2.self_name, ctx=ast.Load()), attr=mname, ctx=ast.Load())
+                c.args = list(rest)
+                ast.fix_missing_locations(c)
+        out.append({'reference_name': mq, 'found_as': fi.qual, 'moved': True, 'leading_argument': lead})
+    return out
+
+
 def identifier_mentions(prog):
     """(mentions, vocabulary): for every identifier the program itself defines (an attribute that is stored somewhere, a name
     bound in a class body or at module level - functions excluded) the set of places that mention it, as 'location|S' (stored)
@@ -1688,6 +1804,10 @@ class Inliner:
         prog = self.prog
         tbl = known_table()
         self.report['recovered_renames'] = recover_renames(prog, tbl)
+        moved = recover_moves(prog, tbl)
+        if moved:
+            self.report['recovered_renames'] = self.report['recovered_renames'] + moved
+            prog.reindex()
         more = recover_identifier_renames(prog, tbl)
         if more:
             self.report['recovered_renames'] = self.report['recovered_renames'] + more
